@@ -38,7 +38,8 @@ def case(draw):
     # fraction of the signal's own absolute sum (cut after the first component or two)
     return {'sig': sig, 'opts': opts, 'interp': draw(st.sampled_from(['splrep', 'pchip', 'mono_pchip'])),
             'pad': draw(st.integers(1, 5)), 'thresh': draw(st.sampled_from([None, None, None, 0, 0.0, 'rel:0.2', 'rel:0.02'])),
-            'par': draw(st.sampled_from([False, False, False, True])), 'magpad': draw(st.sampled_from([None, None, None, 0, 1, 2, 3]))}
+            'par': draw(st.sampled_from([False, False, False, True])), 'magpad': draw(st.sampled_from([None, None, None, 0, 1, 2, 3])),
+            'pre': draw(st.sampled_from([False, False, True]))}
 
 
 @st.composite
@@ -83,6 +84,15 @@ def oracle(case, rec):
         thresh = float(tsel.split(':')[1]) * np.abs(x).sum() if isinstance(tsel, str) else tsel
         kw['sift_thresh'] = thresh
     rec.cls('sift_thresh=%s' % ('default' if not kw else 'zero' if thresh == 0 else 'large'))
+    if case.get('pre'):
+        # an earlier, different request in the same process (another record, an energy threshold, a loose stop rule):
+        # nothing of it may carry over into the call under test
+        try:
+            emd.sift.sift(x[::-1].copy() * 0.5 + 1.0, max_imfs=3,
+                          imf_opts={'energy_thresh': 40, 'sd_thresh': 0.4, 'max_iters': 200, 'env_step_size': 0.9})
+        except Exception:
+            pass
+        rec.cls('after an earlier call with other options')
     given = gens.arg(xin)
     try:
         imf = emd.sift.sift(given, imf_opts=dict(opts), envelope_opts=dict(eo), extrema_opts=copy.deepcopy(xo), **kw)
